@@ -1,6 +1,70 @@
 /* VERIF-UNIT
 {
- "name": "p2_check_name_converge",
+ "name": "p2_check_name_repair",
+ "props": ["C01"],
+ "level": "U",
+ "tier": "wip",
+ "harness": "h_name_repair",
+ "enforce": ["check_name"],
+ "loop_contracts": true,
+ "includes": ["e2fsck", "lib/support"],
+ "sources": ["lib/ext2fs/dir_iterate.c"],
+ "unwind": 10,
+ "unwind_reason": "the loop of check_name is closed by its in-place loop contract; the bound only serves DFCC library loops",
+ "functions": ["e2fsck/pass2.c:check_name"],
+ "assumes": ["directory scan buffer of 2 x 1024 bytes, entry at an arbitrary offset of the 1024-byte block (tail view, p2_common.h), constrained only by the call-site facts of check_dir_block (offset+rec_len within the block, rec_len >= 12, rec_len % 4 == 0, name fits in rec_len)",
+	     "fix_problem is a stub that logs the code and answers yes",
+	     "needs the loop anchor VERIF_LOOP(VERIF_INV_PASS2_CHECK_NAME) in e2fsck/pass2.c (hooks-pending/pass2.diff)",
+	     "C01 for check_name is the composition of this unit (after an accepted repair every name byte is legal, header untouched) with p2_check_name_sound (a legal name is neither reported nor touched): the postcondition here is, byte for byte, the precondition there"],
+ "native": false
+}
+*/
+/* VERIF-UNIT
+{
+ "name": "p2_check_name_detect",
+ "props": ["C02"],
+ "level": "U",
+ "tier": "wip",
+ "harness": "h_name_detect",
+ "enforce": ["check_name"],
+ "loop_contracts": true,
+ "includes": ["e2fsck", "lib/support"],
+ "sources": ["lib/ext2fs/dir_iterate.c"],
+ "unwind": 10,
+ "unwind_reason": "the loop of check_name is closed by its in-place loop contract; the bound only serves DFCC library loops",
+ "functions": ["e2fsck/pass2.c:check_name"],
+ "assumes": ["same buffer / call-site assumptions as p2_check_name_repair",
+	     "'the name is illegal' is given by a witness: some position j < name_len (arbitrary, IN.j) holds '/' or NUL",
+	     "fix_problem stub answers no to everything (e2fsck -n)",
+	     "PR_NO_OK pin of the problem table: PR_2_BAD_NAME does not carry PR_NO_OK",
+	     "needs the loop anchor VERIF_LOOP(VERIF_INV_PASS2_CHECK_NAME) in e2fsck/pass2.c (hooks-pending/pass2.diff)"],
+ "native": false
+}
+*/
+/* VERIF-UNIT
+{
+ "name": "p2_check_name_sound",
+ "props": ["C05", "C01"],
+ "level": "U",
+ "tier": "wip",
+ "harness": "h_name_sound",
+ "enforce": ["check_name"],
+ "loop_contracts": true,
+ "includes": ["e2fsck", "lib/support"],
+ "sources": ["lib/ext2fs/dir_iterate.c"],
+ "unwind": 10,
+ "unwindset": {"p2f_name_ok.0": 257},
+ "unwind_reason": "the loop of check_name is closed by its in-place loop contract; the loop unwound 257 times is the one of the SPEC function p2f_name_ok in the harness, which runs name_len <= 255 times (8-bit on-disk field); 10 serves DFCC library loops",
+ "functions": ["e2fsck/pass2.c:check_name"],
+ "assumes": ["same buffer / call-site assumptions as p2_check_name_repair",
+	     "fix_problem answers are arbitrary (IN.choice)",
+	     "needs the loop anchor VERIF_LOOP(VERIF_INV_PASS2_CHECK_NAME) in e2fsck/pass2.c (hooks-pending/pass2.diff)"],
+ "native": false
+}
+*/
+/* VERIF-UNIT
+{
+ "name": "p2_check_name_converge_k",
  "props": ["C01"],
  "level": "U/k",
  "tier": "wip",
@@ -9,45 +73,11 @@
  "sources": ["lib/ext2fs/dir_iterate.c"],
  "unwind": 257,
  "unwind_reason": "the loop of check_name (and of the spec function p2f_name_ok) runs name_len times; name_len is an 8-bit on-disk field, so at most 255 iterations; unwinding assertions make the bound complete",
+ "backend": "cadical",
+ "timeout": 900,
  "functions": ["e2fsck/pass2.c:check_name"],
- "assumes": ["directory scan buffer of 2 x 1024 bytes, entry at an arbitrary offset of the 1024-byte block (tail view, p2_common.h), constrained only by the call-site facts of check_dir_block (offset+rec_len within the block, rec_len >= 12, rec_len % 4 == 0, name fits in rec_len, inode != 0)",
+ "assumes": ["the literal two-run statement of C01 for check_name by unwinding (slow); 264-byte window view of the scan buffer starting at the entry (p2_common.h)",
 	     "fix_problem is a stub that logs the code and answers yes in the first run, IN.choice in the second"],
- "native": false
-}
-*/
-/* VERIF-UNIT
-{
- "name": "p2_check_name_detect",
- "props": ["C02"],
- "level": "U/k",
- "tier": "wip",
- "harness": "h_name_detect",
- "enforce": ["check_name"],
- "includes": ["e2fsck", "lib/support"],
- "sources": ["lib/ext2fs/dir_iterate.c"],
- "unwind": 257,
- "unwind_reason": "the loop of check_name (and of the spec function p2f_name_ok) runs name_len times; name_len is an 8-bit on-disk field, so at most 255 iterations; unwinding assertions make the bound complete",
- "functions": ["e2fsck/pass2.c:check_name"],
- "assumes": ["same buffer / call-site assumptions as p2_check_name_converge",
-	     "fix_problem stub answers no to everything (e2fsck -n)",
-	     "PR_NO_OK pin of the problem table: PR_2_BAD_NAME does not carry PR_NO_OK"],
- "native": false
-}
-*/
-/* VERIF-UNIT
-{
- "name": "p2_check_name_sound",
- "props": ["C05"],
- "level": "U/k",
- "tier": "wip",
- "harness": "h_name_sound",
- "includes": ["e2fsck", "lib/support"],
- "sources": ["lib/ext2fs/dir_iterate.c"],
- "unwind": 257,
- "unwind_reason": "the loop of check_name (and of the spec function p2f_name_ok) runs name_len times; name_len is an 8-bit on-disk field, so at most 255 iterations; unwinding assertions make the bound complete",
- "functions": ["e2fsck/pass2.c:check_name"],
- "assumes": ["same buffer / call-site assumptions as p2_check_name_converge",
-	     "fix_problem answers are arbitrary (IN.choice)"],
  "native": false
 }
 */
@@ -56,8 +86,55 @@
  *
  * Independent statement (pass2_format.h): a name is a path component: none of its name_len bytes is '/' or NUL.
  * Contract on the real function: preconditions = call-site facts; frame = scan buffer + ghost state; result 0/1.
+ *
+ * The loop over the name is closed by an in-place loop contract; pass2.c only names the loop
+ * (VERIF_LOOP(VERIF_INV_PASS2_CHECK_NAME)), each unit supplies the invariant that fits its statement:
+ *   repair  (answer yes)   frame: the name bytes + the ghost log.  Invariant at the ghost byte verif_k (= IN.k, original
+ *           value verif_g0): before the first illegal character nothing is logged or changed and the bytes passed are
+ *           legal; afterwards exactly one PR_2_BAD_NAME is logged, ret is 1 and every byte passed is the original one
+ *           or '.' in place of an illegal one.
+ *   detect  (answer no)    frame: NOT the buffer.  The loop cannot get past the witness position verif_g2 (= IN.j)
+ *           without having asked; a declined question leaves the function at once.
+ *   sound   (any answer)   frame: the loop counter only (not even the ghost log: fix_problem is never called).  The
+ *           universally quantified premise "every name byte is legal" is the unrolled spec function p2f_name_ok
+ *           evaluated in the harness on the same bytes; the buffer is not in the loop frame, so it is known to be
+ *           unchanged in the arbitrary iteration.
  */
 #include "p2_pre.h"
+
+unsigned long long verif_k;		/* ghost byte index into the scan buffer view (= IN.k) */
+unsigned long long verif_g0;		/* original value of that byte */
+unsigned long long verif_g2;		/* detect: witness position of an illegal character */
+
+#define P2N_BUF ((const unsigned char *) dirent)
+#define P2N_NL ((int) (dirent->name_len & 0xff))
+#define P2N_IN_PASSED(k, i) ((k) >= 8 && (k) < 8 + (unsigned long long) (i))
+
+#if defined(VERIF_UNIT_p2_check_name_repair)
+#define VERIF_INV_PASS2_CHECK_NAME \
+	__CPROVER_assigns(i, fixup, ret, __CPROVER_object_upto(dirent->name, 255), \
+			  __CPROVER_object_whole(p2_log), p2_nlog, p2_nserious, p2_nchoice) \
+	__CPROVER_loop_invariant(0 <= i && i <= P2N_NL) \
+	__CPROVER_loop_invariant(fixup == -1 || fixup == 1) \
+	__CPROVER_loop_invariant(fixup != -1 || (ret == 0 && p2_nlog == 0 && p2_nserious == 0 && \
+		P2N_BUF[verif_k] == verif_g0 && (!P2N_IN_PASSED(verif_k, i) || !P2F_BAD_CHAR(verif_g0)))) \
+	__CPROVER_loop_invariant(fixup != 1 || (ret == 1 && p2_nlog == 1 && p2_log[0] == PR_2_BAD_NAME && p2_nserious == 1 && \
+		P2N_BUF[verif_k] == ((P2N_IN_PASSED(verif_k, i) && P2F_BAD_CHAR(verif_g0)) ? '.' : verif_g0))) \
+	__CPROVER_decreases(P2N_NL - i)
+#elif defined(VERIF_UNIT_p2_check_name_detect)
+#define VERIF_INV_PASS2_CHECK_NAME \
+	__CPROVER_assigns(i, fixup, ret, __CPROVER_object_whole(p2_log), p2_nlog, p2_nserious, p2_nchoice) \
+	__CPROVER_loop_invariant(0 <= i && i <= P2N_NL) \
+	__CPROVER_loop_invariant(fixup == -1 && ret == 0 && p2_nlog == 0 && p2_nserious == 0) \
+	__CPROVER_loop_invariant((unsigned long long) i <= verif_g2) \
+	__CPROVER_decreases(P2N_NL - i)
+#elif defined(VERIF_UNIT_p2_check_name_sound)
+#define VERIF_INV_PASS2_CHECK_NAME \
+	__CPROVER_assigns(i) \
+	__CPROVER_loop_invariant(0 <= i && i <= P2N_NL) \
+	__CPROVER_loop_invariant(fixup == -1 && ret == 0) \
+	__CPROVER_decreases(P2N_NL - i)
+#endif
 
 static int check_name(e2fsck_t ctx, struct ext2_dir_entry *dirent, struct problem_context *pctx)
 	REQUIRES(dirent->rec_len >= 12 && (dirent->rec_len & 3) == 0)
@@ -67,34 +144,30 @@ static int check_name(e2fsck_t ctx, struct ext2_dir_entry *dirent, struct proble
 
 #include "p2_common.h"
 
-/* C01 */
-void h_name_converge(void)
+#define P2N_IN_NAME(k) ((k) >= 8 && (k) < 8 + P2F_NL(IN.blk, 0))
+
+/* C01, first half: an accepted repair makes the name legal and touches nothing else */
+void h_name_repair(void)
 {
 	struct p2_world w;
-	unsigned char b1;
-	int r1, r2;
+	int r;
 
 	LOAD_IN();
 	p2_setup(&w, P2_YES, P2_VIEW_TAIL);
 	ASSUME(p2_callsite_ok(IN.blk, w.off));
+	verif_k = IN.k;
+	verif_g0 = w.b0;
 
-	r1 = check_name(w.ctx, w.dirent, &w.pctx);
-	if (r1) REACH("first run repaired something");
-	CHECK(r1 == (p2_nlog != 0), "answer yes: 'modified' is reported exactly when a problem was raised");
+	r = check_name(w.ctx, w.dirent, &w.pctx);
+	if (r) REACH("repaired something");
+	if (!r) REACH("nothing to repair");
+	CHECK(r == (p2_nlog != 0), "answer yes: 'modified' is reported exactly when a problem was raised");
 	CHECK(p2_nlog <= 1, "the question is asked once per entry, not once per character");
+	CHECK(w.buf[IN.k] == ((P2N_IN_NAME(IN.k) && P2F_BAD_CHAR(w.b0)) ? '.' : w.b0),
+	      "every byte: an illegal name character becomes '.', everything else is kept");
+	CHECK(!P2N_IN_NAME(IN.k) || !P2F_BAD_CHAR(w.buf[IN.k]), "every name byte is legal afterwards (precondition of p2_check_name_sound)");
+	CHECK(r != 0 || w.buf[IN.k] == w.b0, "'not modified' means no byte changed");
 	CHECK(p2_callsite_ok(w.buf, w.off), "call-site facts survive the repair");
-	CHECK(p2f_name_ok(w.buf, 0), "after the accepted repair the name is a legal path component");
-	CHECK(IN.k < 8 || IN.k >= 8 + P2F_NL(IN.blk, 0) || w.buf[IN.k] == IN.blk[IN.k] || P2F_BAD_CHAR(IN.blk[IN.k]),
-	      "legal characters of the name are kept");
-	CHECK((IN.k >= 8 && IN.k < 8 + P2F_NL(IN.blk, 0)) || w.buf[IN.k] == w.b0, "nothing outside the name changes");
-
-	b1 = w.buf[IN.k];
-	p2_clear_log();
-	p2_mode = P2_CHOICE;
-	r2 = check_name(w.ctx, w.dirent, &w.pctx);
-	CHECK(p2_nlog == 0, "second run raises no problem");
-	CHECK(r2 == 0, "second run reports 'not modified'");
-	CHECK(w.buf[IN.k] == b1, "second run leaves every byte of the scan buffer unchanged");
 	REACH("end");
 }
 
@@ -107,7 +180,11 @@ void h_name_detect(void)
 	LOAD_IN();
 	p2_setup(&w, P2_NO, P2_VIEW_TAIL);
 	ASSUME(p2_callsite_ok(IN.blk, w.off));
-	ASSUME(!p2f_name_ok(IN.blk, 0));
+	/* the name is illegal: position IN.j is inside the name and holds '/' or NUL */
+	ASSUME(IN.j < P2F_NL(IN.blk, 0) && P2F_BAD_CHAR(P2F_NAME(IN.blk, 0, IN.j)));
+	verif_k = IN.k;
+	verif_g0 = w.b0;
+	verif_g2 = IN.j;
 
 	r = check_name(w.ctx, w.dirent, &w.pctx);
 	CHECK(p2_nserious >= 1, "an illegal name raises at least one problem without PR_NO_OK");
@@ -116,7 +193,7 @@ void h_name_detect(void)
 	REACH("end");
 }
 
-/* C05 */
+/* C05 (and second half of C01) */
 void h_name_sound(void)
 {
 	struct p2_world w;
@@ -127,10 +204,37 @@ void h_name_sound(void)
 	ASSUME(p2_callsite_ok(IN.blk, w.off));
 	ASSUME(p2f_name_ok(IN.blk, 0));
 	if (P2F_NL(IN.blk, 0) == 255) REACH("longest name");
+	verif_k = IN.k;
+	verif_g0 = w.b0;
 
 	r = check_name(w.ctx, w.dirent, &w.pctx);
 	CHECK(p2_nlog == 0, "legal name: no problem raised");
 	CHECK(r == 0, "legal name: reported as not modified");
 	CHECK(w.buf[IN.k] == w.b0, "legal name: no byte of the scan buffer changes");
+	REACH("end");
+}
+
+/* C01, literal two-run form (unwinding) */
+void h_name_converge(void)
+{
+	struct p2_world w;
+	unsigned char b1;
+	int r1, r2;
+
+	LOAD_IN();
+	p2_setup(&w, P2_YES, P2_VIEW_WINDOW);
+	ASSUME(p2_callsite_ok(IN.blk, w.off));
+
+	r1 = check_name(w.ctx, w.dirent, &w.pctx);
+	if (r1) REACH("first run repaired something");
+	CHECK(r1 == (p2_nlog != 0), "answer yes: 'modified' is reported exactly when a problem was raised");
+
+	b1 = w.buf[IN.k];
+	p2_clear_log();
+	p2_mode = P2_CHOICE;
+	r2 = check_name(w.ctx, w.dirent, &w.pctx);
+	CHECK(p2_nlog == 0, "second run raises no problem");
+	CHECK(r2 == 0, "second run reports 'not modified'");
+	CHECK(w.buf[IN.k] == b1, "second run leaves every byte of the scan buffer unchanged");
 	REACH("end");
 }
